@@ -43,6 +43,9 @@ def _worker(args):
         lines, st = gen_sim.gen_scenario(rng, rng.choice(profiles), exclude=exclude)
         (rc1, a, e1), (rc2, b, e2) = simcorr.run_pair(c_exe, lean_exe, lines)
         st["sig"] = hashlib.sha256("\n".join(lines).encode()).hexdigest()[:16]
+        if not stats:
+            st["scenario"] = lines
+            st["impl_log_head"] = a[:12]
         st["nonsuccess"] = sum(1 for l in a if l.startswith("r ") and len(l.split()) > 4 and l.split()[4] not in ("0", "1"))
         st["blocked_end"] = sum(1 for l in a if l.startswith("P ") and "st=1" in l)
         stats.append(st)
